@@ -184,7 +184,9 @@ def R3_booking_side(run):
     run.touch(fn)
     for val in (False, True):
         fl = preach.flow(fn, {"is_token_fee_in_a": val})
-        ws = [w for w in writes.field_stores(facts) if w["fn"] is fn and w["adt"] == W and fl.state_in[w["block"]] is not None]
+        ws = [w for w in writes.field_stores(facts) if w["fn"] is fn and w["adt"] == W and fl.state_in[w["block"]] is not None and w["kind"] == "assign"]
+        # stores through a `&mut` chosen per side (`*input_growth = ..`) are stores to the field the reference points at in this context
+        ws += writes.deref_stores(fn, prov_of(fn, {"is_token_fee_in_a": val}), W)
         fields = {w["field"] for w in ws}
         side = "a" if val else "b"
         other = "b" if val else "a"
